@@ -272,6 +272,54 @@ theorem fill_keeps_values (lim : Option Nat) (m : Method) (f g : Frame) (hm : m 
       exact ⟨rfl, names_map _, mapCols_keeps _ f fun c hc i v hv => ffillTail_keep _ _ _ _ hs (hr c hc).symm i v hv⟩
     · cases h
 
+/-- the methods that never look at labels (a number, ffill, bfill): the same, for ANY index (decreasing, shuffled, repeated
+labels) and any column lengths - the hypothesis `f.Sorted` of `fill_keeps_values` is needed by 'ffill_na' / 'ffill_0' only -/
+theorem fill_keeps_values_any_index (lim : Option Nat) (m : Method) (f g : Frame)
+    (hm : m = .ffill ∨ m = .bfill ∨ ∃ c, m = .const c) (h : step lim f m = .ok g) :
+    g.idx = f.idx ∧ g.names = f.names ∧ ∀ j i v, cell f j i = some (some v) → cell g j i = some (some v) := by
+  have names_map : ∀ k : Col → Col, (f.mapCols k).names = f.names := fun k => by
+    simp [Frame.names, Frame.mapCols, List.map_map, Function.comp_def]
+  rcases hm with rfl | rfl | ⟨c, rfl⟩
+  · simp only [step] at h; split at h
+    · cases h; exact ⟨rfl, names_map _, mapCols_keeps _ f fun _ _ i v hv => ffillAux_keep _ _ _ _ i v hv⟩
+    · cases h
+  · simp only [step] at h; split at h
+    · cases h; exact ⟨rfl, names_map _, mapCols_keeps _ f fun _ _ i v hv => bfill_keep _ _ i v hv⟩
+    · cases h
+  · simp only [step] at h; split at h
+    · cases h; exact ⟨rfl, names_map _, mapCols_keeps _ f fun _ _ i v hv => fillConst_keep _ _ _ i v hv⟩
+    · cases h
+
+/-- ... and for a LIST of such methods -/
+theorem fillna_keeps_any_index (ms : List Method) (lim : Option Nat) (f g : Frame)
+    (hms : ∀ m ∈ ms, m = .ffill ∨ m = .bfill ∨ ∃ c, m = .const c) (h : fillna ms lim f = .ok g) :
+    g.idx = f.idx ∧ g.names = f.names ∧ ∀ j i v, cell f j i = some (some v) → cell g j i = some (some v) := by
+  induction ms generalizing f with
+  | nil => simp [fillna, List.foldlM, pure, Except.pure] at h; subst h; exact ⟨rfl, rfl, fun _ _ _ h => h⟩
+  | cons m ms ih =>
+    rw [seq_cons] at h
+    cases h1 : step lim f m with
+    | error e => rw [h1] at h; cases h
+    | ok f1 =>
+      rw [h1] at h
+      obtain ⟨a1, a2, a3⟩ := fill_keeps_values_any_index lim m f f1 (hms m (by simp)) h1
+      obtain ⟨b1, b2, b3⟩ := ih f1 (fun m' hm' => hms m' (by simp [hm'])) h
+      exact ⟨b1.trans a1, b2.trans a2, fun j i v hv => b3 j i v (a3 j i v hv)⟩
+
+/-- **the sortedness hypothesis is needed**: on a decreasing index 'ffill_0' overwrites a value - `res[res.index > last_valid] = 0`
+compares LABELS, and the rows whose label is later than the last valid row's label stand BEFORE it.  The real code does the same
+(`df_fillna(pd.Series([2., 1., nan], [d3, d2, d1]), 'ffill_0')` is `[0, 1, 1]`).  The property's quantifier ranges over values and
+NaN patterns, not over index orders; the strictly increasing index is a declared assumption of this check (`ASSUMPTIONS`). -/
+theorem ffill_tail_needs_sorted : ∃ (idx : List Int) (xs : Col) (i : Nat) (v : Int), idx.length = xs.length ∧
+    xs[i]? = some (some v) ∧ (ffillTail (some 0) Option.none idx xs)[i]? ≠ some (some v) :=
+  ⟨[3, 2, 1], [some 2, some 1, Option.none], 0, 2, by decide⟩
+
+/-- the same at frame level: without `f.Sorted` the conclusion of `fill_keeps_values` fails for 'ffill_0' -/
+theorem fill_keeps_values_needs_sorted : ∃ (f g : Frame) (v : Int), f.Rect ∧ step Option.none f .ffill0 = .ok g ∧
+    cell f 0 0 = some (some v) ∧ cell g 0 0 ≠ some (some v) :=
+  ⟨{ idx := [3, 2, 1], cols := [("a", [some 2, some 1, Option.none])] },
+   { idx := [3, 2, 1], cols := [("a", [some 0, some 1, some 1])] }, 2, by decide, rfl, by decide, by decide⟩
+
 /-- every step, hence every method list, keeps the index strictly increasing and the frame rectangular -/
 theorem fillna_wellformed (ms : List Method) (lim : Option Nat) (f g : Frame) (hs : f.Sorted) (hr : f.Rect)
     (h : fillna ms lim f = .ok g) : g.Sorted ∧ g.Rect := by
